@@ -241,13 +241,19 @@ impl Executor {
     /// error is encountered.
     pub(crate) fn run(&mut self, timeout: Duration) -> Result<(), ExecutorError> {
         self.context.pool_manager.activate_worker();
+        #[cfg(feature = "verif-hooks")]
+        crate::verif_hooks::probe(crate::verif_hooks::site::MT_RUN_ACTIVATED, 0);
 
         loop {
             if let Some((model_id, payload)) = self.context.pool_manager.take_panic() {
                 return Err(ExecutorError::Panic(model_id, payload));
             }
 
+            #[cfg(feature = "verif-hooks")]
+            crate::verif_hooks::probe(crate::verif_hooks::site::MT_RUN_BEFORE_IDLE_CHECK, 0);
             if self.context.pool_manager.pool_is_idle() {
+                #[cfg(feature = "verif-hooks")]
+                crate::verif_hooks::probe(crate::verif_hooks::site::MT_RUN_IDLE_SEEN, 0);
                 let msg_count = self.context.msg_count.load(Ordering::Relaxed);
                 if msg_count != 0 {
                     let msg_count: usize = msg_count.try_into().unwrap();
@@ -258,6 +264,8 @@ impl Executor {
                 return Ok(());
             }
 
+            #[cfg(feature = "verif-hooks")]
+            crate::verif_hooks::probe(crate::verif_hooks::site::MT_RUN_BEFORE_PARK, 0);
             if timeout.is_zero() {
                 self.parker.park();
             } else if !self.parker.park_timeout(timeout) {
@@ -460,6 +468,8 @@ fn schedule_task(task: Runnable, executor_id: usize) {
                 None => return,
             };
 
+            #[cfg(feature = "verif-hooks")]
+            crate::verif_hooks::probe(crate::verif_hooks::site::MT_SCHEDULE_FAST_SLOT, 0);
             // Push the previous task to the local queue if possible or on the
             // injector queue otherwise.
             if let Err(prev_task) = local_queue.push(prev_task) {
@@ -474,6 +484,8 @@ fn schedule_task(task: Runnable, executor_id: usize) {
                 }
             }
 
+            #[cfg(feature = "verif-hooks")]
+            crate::verif_hooks::probe(crate::verif_hooks::site::MT_SCHEDULE_BEFORE_ACTIVATE, 0);
             // A task has been pushed to the local or injector queue: try to
             // activate another worker if no worker is currently searching for a
             // task.
@@ -514,12 +526,18 @@ fn run_local_worker(worker: &Worker, id: usize, parker: Parker, abort_signal: Si
         loop {
             // Signal barrier: park until notified to continue or terminate.
 
+            #[cfg(feature = "verif-hooks")]
+            crate::verif_hooks::probe(crate::verif_hooks::site::MT_WORKER_BEFORE_DEACTIVATE, id);
             // Try to deactivate the worker.
             if pool_manager.try_set_worker_inactive(id) {
                 // No need to call `begin_worker_search()`: this was done by the
                 // thread that unparked the worker.
+                #[cfg(feature = "verif-hooks")]
+                crate::verif_hooks::probe(crate::verif_hooks::site::MT_WORKER_DEACTIVATED, id);
                 update_msg_count();
                 parker.park();
+                #[cfg(feature = "verif-hooks")]
+                crate::verif_hooks::probe(crate::verif_hooks::site::MT_WORKER_UNPARKED, id);
             } else if injector.is_empty() {
                 // This worker could not be deactivated because it was the last
                 // active worker. In such case, the call to
@@ -527,10 +545,18 @@ fn run_local_worker(worker: &Worker, id: usize, parker: Parker, abort_signal: Si
                 // all threads that pushed tasks to the injector queue but could
                 // not activate a new worker, which is why some tasks may now be
                 // visible in the injector queue.
+                #[cfg(feature = "verif-hooks")]
+                crate::verif_hooks::probe(crate::verif_hooks::site::MT_WORKER_LAST_BEFORE_IDLE, id);
                 pool_manager.set_all_workers_inactive();
+                #[cfg(feature = "verif-hooks")]
+                crate::verif_hooks::probe(crate::verif_hooks::site::MT_WORKER_ALL_INACTIVE, id);
                 update_msg_count();
+                #[cfg(feature = "verif-hooks")]
+                crate::verif_hooks::probe(crate::verif_hooks::site::MT_WORKER_BEFORE_UNPARK_MAIN, id);
                 executor_unparker.unpark();
                 parker.park();
+                #[cfg(feature = "verif-hooks")]
+                crate::verif_hooks::probe(crate::verif_hooks::site::MT_WORKER_UNPARKED, id);
                 // No need to call `begin_worker_search()`: this was done by the
                 // thread that unparked the worker.
             } else {
@@ -547,6 +573,8 @@ fn run_local_worker(worker: &Worker, id: usize, parker: Parker, abort_signal: Si
             loop {
                 // Check the injector queue first.
                 if let Some(bucket) = injector.pop_bucket() {
+                    #[cfg(feature = "verif-hooks")]
+                    crate::verif_hooks::probe(crate::verif_hooks::site::MT_WORKER_BUCKET_POPPED, id);
                     let bucket_iter = bucket.into_iter();
 
                     // There is a _very_ remote possibility that, even though
@@ -580,6 +608,8 @@ fn run_local_worker(worker: &Worker, id: usize, parker: Parker, abort_signal: Si
                 } else {
                     // The injector queue is empty. Try to steal from active
                     // siblings.
+                    #[cfg(feature = "verif-hooks")]
+                    crate::verif_hooks::probe(crate::verif_hooks::site::MT_WORKER_BEFORE_STEAL, id);
                     let mut stealers = pool_manager.shuffled_stealers(Some(id), &rng);
                     if stealers.all(|stealer| {
                         stealer
@@ -604,13 +634,19 @@ fn run_local_worker(worker: &Worker, id: usize, parker: Parker, abort_signal: Si
                 // Signal the end of the search so that another worker can be
                 // activated when a new task is scheduled.
                 pool_manager.end_worker_search();
+                #[cfg(feature = "verif-hooks")]
+                crate::verif_hooks::probe(crate::verif_hooks::site::MT_WORKER_END_SEARCH, id);
 
                 // Pop tasks from the fast slot or the local queue.
                 while let Some(task) = fast_slot.take().or_else(|| local_queue.pop()) {
                     if abort_signal.is_set() {
                         return;
                     }
+                    #[cfg(feature = "verif-hooks")]
+                    crate::verif_hooks::probe(crate::verif_hooks::site::MT_WORKER_BEFORE_RUN, id);
                     task.run();
+                    #[cfg(feature = "verif-hooks")]
+                    crate::verif_hooks::probe(crate::verif_hooks::site::MT_WORKER_AFTER_RUN, id);
                 }
 
                 // Resume the search for tasks.
